@@ -1,4 +1,5 @@
 import Mkdb.Driver.LRU
+import Mkdb.Driver.Page
 open Mkdb.Driver
 
 def main (args : List String) : IO UInt32 := do
@@ -7,4 +8,6 @@ def main (args : List String) : IO UInt32 := do
   match args with
   | ["model", "lru"] => modelLoop stdin stdout (Mkdb.LRU.Cache.empty 0) LRU.stepLine; return 0
   | ["judge", "lru"] => judgeLoop stdin stdout ({} : LRU.J) LRU.judgeLine; return 0
+  | ["model", "page"] => modelLoop stdin stdout () Page.stepLine; return 0
+  | ["judge", "page"] => judgeLoop stdin stdout "?" Page.judgeLine; return 0
   | _ => IO.eprintln "usage: mkdbdrv model|judge <proto>"; return 2
